@@ -18,6 +18,8 @@ import RV.Base.Proto
     mlen c                               -> store.__len__(c)
     ctxs s p o                           -> store.contexts(pattern)  (`* * *` = all registered graphs)
     bin OP g h      (OP = add|sub|mul|xor)  -> triples of the new graph, sorted
+    binl OP g R|L (s p o)*               -> the same with the other operand a graph of ANOTHER store holding the
+                                            listed triples (R: g OP other, L: other OP g);  sbinl OP i R|L … likewise
     iopen k g s p o                      -> ok            (generator k starts now)
     iyield k s p o                       -> adm | NOT-adm (could the machine yield this triple now?)
   Simple stores i ∈ {0,1} (one graph each, identifier 50+i):
@@ -88,6 +90,9 @@ def binop (op : String) (xs : List Triple) (inA : Triple → Bool) (ys : List Tr
   else if op = "mul" then some (gInter inA ys 1000)
   else if op = "xor" then some (gXor xs inA ys inB 1000)
   else none
+
+/-- iteration of an operand graph that lives on some other store and holds the listed triples -/
+def dedup (ts : List Triple) : List Triple := ts.foldl sinsert []
 
 def showBin (r : Option Mem) : String :=
   match r with
@@ -187,6 +192,24 @@ def step (d : DS) : List String → DS × String
     match g.toNat?, h.toNat? with
     | some g, some h =>
       (d, showBin (binop op (d.m.graph g) (fun x => d.m.contains x g) (d.m.graph h) (fun x => d.m.contains x h)))
+    | _, _ => (d, "bad-op")
+  | "binl" :: op :: g :: side :: r =>
+    match g.toNat?, triples? r with
+    | some g, some ts =>
+      if side = "R" then
+        (d, showBin (binop op (d.m.graph g) (fun x => d.m.contains x g) (dedup ts) (fun x => decide (x ∈ ts))))
+      else if side = "L" then
+        (d, showBin (binop op (dedup ts) (fun x => decide (x ∈ ts)) (d.m.graph g) (fun x => d.m.contains x g)))
+      else (d, "bad-op")
+    | _, _ => (d, "bad-op")
+  | "sbinl" :: op :: i :: side :: r =>
+    match sidx? i, triples? r with
+    | some i, some ts =>
+      if side = "R" then
+        (d, showBin (binop op ((d.sget i).triples allPat) (fun x => (d.sget i).contains x) (dedup ts) (fun x => decide (x ∈ ts))))
+      else if side = "L" then
+        (d, showBin (binop op (dedup ts) (fun x => decide (x ∈ ts)) ((d.sget i).triples allPat) (fun x => (d.sget i).contains x)))
+      else (d, "bad-op")
     | _, _ => (d, "bad-op")
   | ["iopen", k, g, a, b, c] =>
     match k.toNat?, g.toNat?, pat? a b c with
